@@ -40,6 +40,7 @@ fn main() {
     mon::logsink::install();
     props::install_panic_hook();
     simk::install();
+    sched::install_hooks();
     // A panic anywhere is reported with the scenario position by the driver
     // (non-zero exit without a summary line).
     match props::run(&name, &args) {
